@@ -20,7 +20,13 @@ func stackView(rbp, top uintptr) []byte {
 }
 
 // UnwindStack implements wazevo.unwindStack.
-func UnwindStack(_, rbp, top uintptr, returnAddresses []uintptr) []uintptr {
+func UnwindStack(sp, rbp, top uintptr, returnAddresses []uintptr) []uintptr {
+	return UnwindStackUpTo(sp, rbp, top, returnAddresses, 0)
+}
+
+// UnwindStackUpTo implements wazevo.unwindStackUpTo: it is UnwindStack which stops as soon as
+// returnAddresses has limit entries, where zero means no limit.
+func UnwindStackUpTo(_, rbp, top uintptr, returnAddresses []uintptr, limit int) []uintptr {
 	stackBuf := stackView(rbp, top)
 
 	for i := uint64(0); i < uint64(len(stackBuf)); {
@@ -53,6 +59,9 @@ func UnwindStack(_, rbp, top uintptr, returnAddresses []uintptr) []uintptr {
 		retAddr := binary.LittleEndian.Uint64(stackBuf[i+8:])
 		returnAddresses = append(returnAddresses, uintptr(retAddr))
 		i = callerRBP - uint64(rbp)
+		if limit > 0 && len(returnAddresses) >= limit {
+			break
+		}
 	}
 	return returnAddresses
 }
